@@ -48,6 +48,8 @@ class SimLock:
         s.probe("lock_acquire")
         s.yield_point(tid, ("lock", "acquire"))
         while True:
+            if s.aborted:
+                return True   # the run is over (deadlock / step cap): let the thread finish, results are ignored
             if self._owner is None:
                 self._owner = tid
                 self._count = 1
@@ -65,6 +67,10 @@ class SimLock:
         s, tid = self._sim()
         if s is None:
             return self._real.release()
+        if s.aborted:
+            self._owner = None
+            self._count = 0
+            return
         if self._owner is None:
             raise RuntimeError("release unlocked lock")
         if self._reentrant and self._owner != tid:
@@ -273,8 +279,9 @@ class Scheduler:
 
     def _park(self, tid):
         self.sem[tid].acquire()
-        if self.aborted:
-            raise SimAbort()
+        # after an abort (deadlock, step cap) every parked thread is released and simply runs to the end of its
+        # body without further scheduling: its results are ignored.  (Unwinding with an exception raised from a
+        # trace callback or a lock operation crashed CPython 3.12.1 when the frame had per-opcode tracing on.)
 
     def _abort(self, why):
         if not self.aborted:
@@ -288,11 +295,11 @@ class Scheduler:
 
     def yield_point(self, tid, label):
         if self.aborted:
-            raise SimAbort()
+            return
         self.steps += 1
         if self.steps > self.max_steps:
             self._abort("step cap")
-            raise SimAbort()
+            return
         self.where[tid] = label
         ready = self._ready()
         nxt = self.chooser.choose(tid, ready, self.steps)
@@ -307,11 +314,13 @@ class Scheduler:
     on_switch = None
 
     def block(self, tid):
+        if self.aborted:
+            return
         self.state[tid] = "blocked"
         ready = self._ready()
         if not ready:
             self._abort("deadlock")
-            raise SimAbort()
+            return
         nxt = self.chooser.choose(None, ready, self.steps)
         self.decisions.append(nxt)
         self.switches.append((tid, nxt, "blocked"))
